@@ -3,6 +3,6 @@
 package fs
 
 // verifPoint is the verification fault point; without the verif build tag it is a no-op.
-func verifPoint(kind, a, b string) error {
+func verifPoint(kind string, args ...string) error {
 	return nil
 }
